@@ -27,7 +27,8 @@ Places where the relation says what the code does rather than what a SQL grammar
       (parser.py:838-851) accepts them as BINARY operators binding tighter than `^`: `a ! b`, `a ~ b ^ c` = `(a ~ b) ^ c`.
   DEVIATION 2 (`column`): `_parse_element_level_expression` (parser.py:776-806) never checks that the token of a column name is a
       NAME: any token that is not a literal, a group, CASE or `*` is a column, reserved words included (`a + AND`).
-  DEVIATION 3 (`isNot_`, `NotOpt`): `b NOT IS NOT a` is accepted (parser.py:901-906): the two flags are or-ed.
+  DEVIATION 3 (`is_` with a NOT in front): `b NOT IS a` is accepted as `b IS NOT a` (parser.py:901, 922); after such a NOT a second
+      NOT behind IS is not a flag any more (`or` short-circuits) but the start of the right operand (`b NOT IS NOT` = `b IS NOT "NOT"`).
   DEVIATION 4 (`inList`): empty segments of an IN list are dropped (`IN (1,,2)` = `IN (1,2)`), `IN ()` is accepted.
   DEVIATION 5 (`index`): stated for every element although the code only indexes columns and calls (weaker, shorter).
 -/
@@ -84,9 +85,9 @@ inductive Derives (d : Gen.D) : Nat → List Tok → Expr → Prop
       Derives d 9 (l ++ ns ++ tb :: u1 ++ ta :: u2) (.between n b f t)
   | is_ {l ns r : List Tok} {n : Bool} {ti : Tok} {b a : Expr} :
       Derives d 9 l b → NotOpt d ns n → up ti.src = "IS" → Derives d 8 r a → Derives d 9 (l ++ ns ++ ti :: r) (.kw .is n b a)
-  | isNot_ {l ns r : List Tok} {n : Bool} {ti tn : Tok} {b a : Expr} :
-      Derives d 9 l b → NotOpt d ns n → up ti.src = "IS" → tn.srcEqUp "NOT" = true → Derives d 8 r a →
-      Derives d 9 (l ++ ns ++ ti :: tn :: r) (.kw .is true b a)
+  | isNot_ {l r : List Tok} {ti tn : Tok} {b a : Expr} :
+      Derives d 9 l b → up ti.src = "IS" → tn.srcEqUp "NOT" = true → Derives d 8 r a →
+      Derives d 9 (l ++ ti :: tn :: r) (.kw .is true b a)
   | like {l ns r : List Tok} {n : Bool} {tk : Tok} {k : KwKind} {b a : Expr} :
       Derives d 9 l b → NotOpt d ns n → likeKind (up tk.src) = some k → Derives d 8 r a →
       Derives d 9 (l ++ ns ++ tk :: r) (.kw k n b a)
